@@ -5,6 +5,7 @@ Built as a native executable (`lake build driver`); imports model files only.
 import CssVerif.Driver.Proto
 import CssVerif.Model.Tokenizer
 import CssVerif.Gen.Productions
+import CssVerif.Driver.DeclOps
 open CssVerif CssVerif.Proto
 
 def showTok (t : Tok) : String :=
@@ -38,6 +39,7 @@ def step (line : String) : String :=
   match line.trimAscii.toString.splitOn " " with
   | ["tok", mode, hex] => opTok mode hex
   | ["re", idx, prev, hex] => opRe idx prev hex
+  | ["decl", hist] => DeclOps.run hist
   | _ => "bad-op"
 
 partial def loop (h : IO.FS.Stream) (out : IO.FS.Stream) : IO Unit := do
